@@ -37,7 +37,15 @@ func takerLoop(q *fpgo.BufferedChannelQueue[int], n int, timed bool, got *int64,
 	for i := 0; i < n; i++ {
 		var err error
 		if timed {
-			_, err = q.TakeWithTimeout(vlib.StallBudget() * 2)
+			// a timed call may time out (that is what the time-out is for): the consumer asks again, and every
+			// call wakes the loader; what must not happen is that REPEATED calls get nothing for the stall budget
+			deadline := time.Now().Add(vlib.StallBudget() + time.Second)
+			for {
+				_, err = q.TakeWithTimeout(100 * time.Millisecond)
+				if err != fpgo.ErrQueueTakeTimeout || time.Now().After(deadline) {
+					break
+				}
+			}
 		} else {
 			_, err = q.Take()
 		}
